@@ -13,7 +13,7 @@ import (
 type scriptProfile struct {
 	name                                                string
 	wRecvHonest, wRecvBad, wAckClear, wReopen, wConnBrk int
-	wSend, wCancel, wRecvCall, wOdd                      int
+	wSend, wCancel, wRecvCall, wOdd                     int
 }
 
 var (
